@@ -268,8 +268,28 @@ fn run_receive(ctx: &RunCtx) -> RunOut {
     }
     let refparse = frames::parse_settings(&payload);
     let delay = *pick(&[0u32, 5, 30]);
-    let cfg = NetCfg::drawn();
+    let mut cfg = NetCfg::drawn();
+    // client role, one run in two: a request is in flight while the SETTINGS travel - send_request() is called
+    // at once and has to wait for stream credit, which the peer grants only after everything has been delivered
+    // and applied. The limit the peer advertised must be in effect for it (behaviour, not just the accessor).
+    let inflight = !role_server && draw(2) == 1;
+    let advertised = entries.iter().find(|(id, _)| *id == frames::SET_MAX_FIELD_SECTION).map(|e| e.1).unwrap_or(DEFAULT_MAX);
+    let pseudo_size: u64 = [(":method", "GET"), (":scheme", "https"), (":authority", "example.com"), (":path", "/c13")].iter().map(|(n, v)| (n.len() + v.len() + 32) as u64).sum();
+    let pad_len: usize = if inflight {
+        let base = pseudo_size + 32 + 5;
+        let target = if (300..=20000).contains(&advertised) { advertised + draw(2) as u64 } else { 300 };
+        (target - base) as usize
+    } else {
+        0
+    };
+    let inflight_size = pseudo_size + 32 + 5 + pad_len as u64;
+    if inflight {
+        cfg.auto_grant = false;
+    }
     let net = Net::new(cfg);
+    if inflight {
+        net.lock().unwrap().sides[CLIENT as usize].bi_credit = Some(0);
+    }
     let peer = if role_server { CLIENT } else { SERVER };
     let h3side = 1 - peer;
     #[derive(Default, Debug, Clone)]
@@ -278,6 +298,7 @@ fn run_receive(ctx: &RunCtx) -> RunOut {
         late: Vec<(u64, u64)>,
         driver: Option<COut>,
         build_err: Option<String>,
+        inflight: Option<Result<(), SOut>>,
     }
     let ahead = if draw(4) == 3 { 1 + draw(2) } else { 0 };
     let rec: Rc<RefCell<Rec>> = Default::default();
@@ -354,6 +375,18 @@ fn run_receive(ctx: &RunCtx) -> RunOut {
                 if !written.get() {
                     rec.borrow_mut().early = read_settings(&driver);
                 }
+                if inflight {
+                    let mut sr2 = sr.clone();
+                    let rec = rec.clone();
+                    exec::spawn("inflight", async move {
+                        let req = http::Request::builder().method("GET").uri("https://example.com/c13").header("x-pad", "p".repeat(pad_len)).body(()).unwrap();
+                        let r = sr2.send_request(req).await;
+                        rec.borrow_mut().inflight = Some(r.as_ref().map(|_| ()).map_err(sout));
+                        // the stream and the handle stay alive to the end of the run
+                        std::future::pending::<()>().await;
+                        drop((r, sr2));
+                    });
+                }
                 let r = poll_fn(|cx| {
                     if let std::task::Poll::Ready(e) = driver.poll_close(cx) {
                         return std::task::Poll::Ready(Some(e));
@@ -381,6 +414,14 @@ fn run_receive(ctx: &RunCtx) -> RunOut {
         return RunOut::fail(Violation::new("C13.step_cap", "no quiescence".to_string()));
     }
     let close = net.lock().unwrap().closes_by(h3side).first().copied();
+    if inflight {
+        // everything the peer wrote has been delivered and processed: now it grants the stream credit
+        net.lock().unwrap().grant(CLIENT, false, 1);
+        ex.run(&mut NetWorld(net.clone()));
+        if let Some(r) = panic_out(&ex, "receive") {
+            return r;
+        }
+    }
     gate.open();
     ex.run(&mut NetWorld(net.clone()));
     if let Some(r) = panic_out(&ex, "receive") {
@@ -424,6 +465,17 @@ fn run_receive(ctx: &RunCtx) -> RunOut {
             }
             if let Some(v) = applied_mismatch(all, &o.late, &defaults) {
                 return mk("C13.setting_not_applied_exactly", v);
+            }
+            if inflight {
+                obs::count("probe.request_in_flight_while_settings_arrive");
+                let want_refused = inflight_size > advertised;
+                match (&o.inflight, want_refused) {
+                    (Some(Err(SOut::HeaderTooBig(a, m))), true) if *a == inflight_size && *m == advertised => {}
+                    (Some(Ok(())), false) => {}
+                    (got, _) => {
+                        return mk("C13.setting_not_in_effect_for_request_in_flight", format!("a request with a field section of size {inflight_size} was waiting for stream credit while SETTINGS_MAX_FIELD_SECTION_SIZE = {advertised} arrived and was applied; when the credit came it must be {}; send_request returned {:?}", if want_refused { "refused as too big" } else { "sent" }, got)).map_fact("expected", if want_refused { "refused" } else { "sent" });
+                    }
+                }
             }
         }
     }
